@@ -813,6 +813,72 @@ func vtSeq(t *vtTokens) (res string) {
 	return strings.Join(lines, " | ")
 }
 
+// ---------------------------------------------------------------------------------------------------------------
+// "hcall" cases: the VALUE the documented summarising helpers return.  A one-action template calling the helper is
+// parsed with the coordinator's FuncMap and executed with executeTemplate on the generated status; maps go through
+// jsonencoder and are printed in a canonical form (keys sorted, topic lists sorted).
+// Output: "OK <canonical value>" or "ERR".
+// ---------------------------------------------------------------------------------------------------------------
+var vtHelperTemplates = map[string]string{
+	"topicsbystatus":  `{{topicsbystatus .Result.Partitions | jsonencoder}}`,
+	"partitioncounts": `{{partitioncounts .Result.Partitions | jsonencoder}}`,
+	"maxlag":          `{{maxlag .Result.Maxlag}}`,
+	"arith":           `{{add .Result.TotalPartitions 7}} {{minus .Result.TotalPartitions 7}} {{multiply .Result.TotalPartitions 7}} {{divide .Result.TotalPartitions 7}}`,
+}
+
+func vtHcall(t *vtTokens) (res string) {
+	defer func() {
+		if r := recover(); r != nil {
+			res = "PANIC"
+		}
+	}()
+	which := t.next()
+	_ = t.next() // template name of the render format: unused
+	_ = t.next()
+	cluster, group, id := t.str(), t.str(), t.str()
+	start := vtStart(t.i64())
+	extras := t.extras()
+	status := t.status(cluster, group)
+	carrier, err := vtFuncs()
+	if err != nil {
+		return "PARSE-ERR"
+	}
+	tmpl, err := carrier.New("hcall").Parse(vtHelperTemplates[which])
+	if err != nil {
+		return "PARSE-ERR"
+	}
+	verdict, out := vtExec(tmpl, extras, status, id, start)
+	if out == nil {
+		return verdict
+	}
+	switch which {
+	case "topicsbystatus":
+		var m map[string][]string
+		if err := json.Unmarshal(out, &m); err != nil {
+			return "OK unreadable " + string(out)
+		}
+		var entries []string
+		for k, l := range m {
+			sort.Strings(l)
+			entries = append(entries, k+"="+strings.Join(l, ","))
+		}
+		sort.Strings(entries)
+		return "OK " + strings.Join(entries, ";")
+	case "partitioncounts":
+		var m map[string]int
+		if err := json.Unmarshal(out, &m); err != nil {
+			return "OK unreadable " + string(out)
+		}
+		var entries []string
+		for k, n := range m {
+			entries = append(entries, fmt.Sprintf("%s=%d", k, n))
+		}
+		sort.Strings(entries)
+		return "OK " + strings.Join(entries, ";")
+	}
+	return "OK " + string(out)
+}
+
 func TestVerifProbeTmpl(t *testing.T) {
 	casesPath, outPath := os.Getenv("VERIF_CASES"), os.Getenv("VERIF_OUT")
 	if casesPath == "" || outPath == "" {
@@ -847,6 +913,8 @@ func TestVerifProbeTmpl(t *testing.T) {
 			fmt.Fprintln(w, vtConf(tk))
 		case "seq":
 			fmt.Fprintln(w, vtSeq(tk))
+		case "hcall":
+			fmt.Fprintln(w, vtHcall(tk))
 		default:
 			t.Fatalf("unknown case kind in %q", line)
 		}
